@@ -321,6 +321,18 @@ def namedify(items, rng, p=0.6):
     return it
 
 
+def keyword_probes():
+    """Identifiers that merely begin with, end with, contain or differ in case from a reserved word, alone and behind a
+    dollar sign, between separators of every kind: the reserved words are `start`, `struct`, `enum`, `terminal`, `_`."""
+    out = []
+    for k in ["start", "struct", "enum", "terminal", "_"]:
+        forms = [k, k + "2", k + "_", "_" + k, k.upper(), k.capitalize(), k + k, k[:-1] or "x", k + "x", "x" + k, k + "9_", "__" + k, k + "é"]
+        for f in forms:
+            out += [f, "$" + f, f + " X", "$" + f + " X", f + ":", f + "::" + f, "(" + f + ")", f + "\n" + f, "$" + f + "$" + f, f + "//c", "#[" + f + "]" + f]
+    out += ["$", "$$", "$ X", "$_", "$_x", "$__", "_", "__", "___", "_ _", "_:_", "$9", "$é", "X$", "X$Y", "$X$", "$X_", "_$X"]
+    return out
+
+
 def exhaustive_small_grammars(maxlen1=3, maxlen2=2, stride=1, offset=0):
     """Every grammar, up to the names, of a small scope: one nonterminal S over terminals {X, Y} with one or two
     alternatives of length <= maxlen1, and two nonterminals S, A with one or two alternatives each of length
